@@ -20,7 +20,7 @@ Rules implemented (section numbers of RFC 9112 unless noted):
             reject or consume without processing                               -> either(leading-fold), line dropped
   R5  §3    request-line = token SP target SP HTTP/d.d ; invalid => SHOULD 400 -> either, opaque
   R6  §5.1  whitespace between field name and colon: server MUST reject        -> reject(ws-before-colon)
-            (responses: proxies remove it; a user agent is not told to reject -> either, name trimmed)
+            (responses: proxies remove it; a user agent is not told what to do   -> either, opaque)
   R7  §5.2  obs-fold in a request: reject or replace by SP                     -> either(obs-fold) value unfolded
             in a response: user agent MUST replace by SP                       -> accept, value unfolded (soft ws)
   R8  9110 §5.5 CR/LF/NUL in a field value: reject or replace by SP           -> either(nul) value with SP
@@ -175,7 +175,9 @@ def _parse_fields(m, buf, pos, is_request, first_section=True):
                 if is_request:
                     _add(m.reject, 'ws-before-colon')       # R6
                 else:
+                    # no rule tells a user agent what to do with it (proxies MUST remove it): not judged
                     _add(m.either, 'ws-before-colon')
+                    m.opaque = True
                 name = stripped
             else:
                 _add(m.either, 'bad-field-name')
@@ -183,6 +185,8 @@ def _parse_fields(m, buf, pos, is_request, first_section=True):
         elif not all(c in TCHAR for c in name):
             _add(m.either, 'bad-field-name')
             m.opaque = True
+        if name.lower() == b"transfer-encoding" and val.lstrip(b" ")[:1] == b"\t":
+            m.features.add('te-leading-htab')
         if b"\x00" in val:
             _add(m.either, 'nul')                           # R8
             val = val.replace(b"\x00", b" ")
